@@ -18,6 +18,7 @@
 From CG3 Require Import Lib.PyZ Lib.Val Lib.PySlice Model.View Spec.ViewSpec.
 From CG3 Require Import Model.Serial Spec.SerialSpec Proofs.SerialProofs.
 From CG3 Require Model.IndelMap Spec.IndelMapSpec.
+From CG3 Require Lib.Rose Model.Tree Model.TreeJson Proofs.NewickMoreProofs.
 From Coq Require Import Permutation.
 
 (** * (1) sequences and views *)
@@ -116,6 +117,58 @@ Theorem alignment_roundtrip : forall k inf rows d, Forall aligned_ok rows -> ali
   exists rows', alignment_of_dict d = Ok (k, inf, rows') /\ map observe_aligned rows' = map observe_aligned rows.
 Proof. exact alignment_roundtrip_lemma. Qed.
 
+(** * (2b) the field-copying types: trees, tables, dict arrays, NotCompleted *)
+
+(** the dict decoder of this model computes exactly C09's [json_roundtrip_fixed] (Model/TreeJson.v: the
+    repaired writer that is now in /repo) for EVERY tree, in whatever state - the edge attributes go through
+    a python dict keyed by node name (last writer wins), which is what C09's [apply_attrs] does *)
+Theorem tree_decoder_is_c09_model : forall t d, tree_to_dict t = JObj d ->
+  tree_of_dict d = lift_tree (TreeJson.json_roundtrip_fixed t).
+Proof. exact tree_of_dict_eq. Qed.
+
+(** hence, under C09's name guard (root called "root", every other name distinct, parseable, not "edge"/"root"),
+    [deserialise_tree(t.to_rich_dict())] is the identical tree: topology, names and every length *)
+Theorem tree_roundtrip : forall t d, NewickMoreProofs.rt_ok_json t = true -> tree_to_dict t = JObj d ->
+  tree_of_dict d = Ok t.
+Proof. exact tree_roundtrip_lemma. Qed.
+
+Theorem tree_guard_example : NewickMoreProofs.rt_ok_json NewickMoreProofs.ex_tree_json = true.
+Proof. exact ex_tree_ok. Qed.
+
+(** tables as [Columns] keeps them (empty, sliced, sorted ... any state): index_name, every persistent attribute,
+    column order, names and cells read back; the numpy dtype strings read back as [redtype] of what was written *)
+Theorem table_roundtrip : forall t d, table_okb t = true -> table_to_dict t = JObj d ->
+  exists t', table_of_dict d = Ok t' /\ observe_table t' = observe_table t /\ table_dtypes t' = map redtype (table_dtypes t).
+Proof. exact table_roundtrip_lemma. Qed.
+
+(** without a text column the table reads back identical, dtypes included *)
+Theorem table_roundtrip_exact : forall t d, table_okb t = true -> dtypes_stable t = true -> table_to_dict t = JObj d ->
+  table_of_dict d = Ok t.
+Proof. exact table_roundtrip_exact_lemma. Qed.
+
+(** a text column does not keep its dtype: written as "U<bits>", read as "<bits> characters" - the item size grows
+    32-fold with every round trip (finding C10-F13; [Columns.__getstate__]) *)
+Theorem table_text_dtype_refuted :
+  exists t d t', table_okb t = true /\ table_to_dict t = JObj d /\ table_of_dict d = Ok t' /\ t' <> t /\
+    table_dtypes t = [[85; 57; 54]] /\ table_dtypes t' = [[85; 51; 48; 55; 50]].
+Proof. exact table_text_dtype_refuted_lemma. Qed.
+
+Theorem table_guard_example : table_okb ex_table = true.
+Proof. exact ex_table_ok. Qed.
+
+Theorem darr_roundtrip : forall a d, darr_okb a = true -> darr_to_dict a = JObj d -> darr_of_dict d = Ok a.
+Proof. exact darr_roundtrip_lemma. Qed.
+
+Theorem darr_guard_example : darr_okb ex_darr = true.
+Proof. exact ex_darr_ok. Qed.
+
+Theorem notcompleted_roundtrip : forall n d, nc_okb n = true -> nc_to_dict n = JObj d -> nc_of_dict d = Ok n.
+Proof. exact nc_roundtrip_lemma. Qed.
+
+Theorem notcompleted_guard_example :
+  nc_okb (mkNC [JStr [69]; JStr [109; 101]; JStr [98; 97; 100]] [(k_source, JStr [120])]) = true.
+Proof. exact ex_nc_ok. Qed.
+
 (** * (3) the registry *)
 
 (** every class of the package that offers to_rich_dict/to_json and is resolved by the registry is resolved
@@ -153,8 +206,10 @@ Proof. exact roundtrip_via_registry_lemma. Qed.
     [universe] stands for the set of all registered serialisable cogent3 types with their encoders,
     decoders and observation functions.  The theorems above establish this statement for the instance
     [obj]/[to_dict]/[deserialise_object]/[observe]/[obj_ok] of Model/Serial.v (sequences of both
-    implementations, views, indel maps, aligned rows, alignments); for the other ~20 registered types it
-    is decided by the oracle "observation before = observation after" on the real code. *)
+    implementations, views, indel maps, aligned rows, alignments, trees, tables, dict arrays, NotCompleted);
+    for the remaining registered types (distance matrices, profiles, alphabets, moltypes, genetic codes,
+    substitution models, likelihood functions, app results, annotation dbs, feature maps, new-style
+    collections) it is decided by the oracle "observation before = observation after" on the real code. *)
 Definition stmt_full_property (T Obs J : Type) (ok : T -> Prop) (encode : T -> J) (decode : J -> option T)
   (obs : T -> Obs) : Prop :=
   forall x, ok x -> exists y, decode (encode x) = Some y /\ obs y = obs x.
